@@ -33,16 +33,24 @@ type Action struct {
 }
 
 type Case struct {
-	Collections int      `json:"collections"` // 1..2
-	Shards      int      `json:"shards"`      // shards per collection 1..2
-	IdleTimeout int      `json:"idleTimeout"` // seconds; 0 = the idle timer fires at once (and is then held at a pause point)
-	Backups     bool     `json:"backups"`
-	Actions     []Action `json:"actions"`
+	Collections int  `json:"collections"` // 1..2
+	Shards      int  `json:"shards"`      // shards per collection 1..2
+	IdleTimeout int  `json:"idleTimeout"` // seconds; 0 = the idle timer fires at once (and is then held at a pause point)
+	Backups     bool `json:"backups"`
+	// StrayBackup: every shard directory holds a file "manual-copy.backup" (not named like the backups the
+	// shard writes), which makes every backup at idle unload report an error
+	StrayBackup bool `json:"strayBackup,omitempty"`
+	// RelativeRoot: the shard manager's root directory is given relative to the working directory, as in the
+	// shipped configurations ("./data")
+	RelativeRoot bool     `json:"relativeRoot,omitempty"`
+	Actions      []Action `json:"actions"`
 }
 
 func genCase(t *rapid.T) Case {
 	c := Case{Collections: rapid.IntRange(1, 2).Draw(t, "cols"), Shards: rapid.IntRange(1, 2).Draw(t, "shards"),
 		IdleTimeout: rapid.SampledFrom([]int{0, 0, 0, 3600}).Draw(t, "timeout"), Backups: rapid.Bool().Draw(t, "backups")}
+	c.StrayBackup = c.Backups && rapid.IntRange(0, 2).Draw(t, "strayBackup") == 0
+	c.RelativeRoot = rapid.IntRange(0, 2).Draw(t, "relativeRoot") == 0
 	n := rapid.IntRange(1, 24).Draw(t, "nactions")
 	for i := 0; i < n; i++ {
 		var a Action
@@ -224,7 +232,15 @@ func execCase(c Case) (res vt.Result) {
 	}
 	cluster.VerifPauseFn.Store(&pauseFn)
 	defer cluster.VerifPauseFn.Store(nil)
-	sm := cluster.NewShardManager(cluster.ShardManagerConfig{RootDir: root, ShardTimeout: c.IdleTimeout, MaxCacheSize: -1})
+	smRoot := root
+	if c.RelativeRoot {
+		if wd, err := os.Getwd(); err == nil {
+			if rel, err := filepath.Rel(wd, root); err == nil {
+				smRoot = rel
+			}
+		}
+	}
+	sm := cluster.NewShardManager(cluster.ShardManagerConfig{RootDir: smRoot, ShardTimeout: c.IdleTimeout, MaxCacheSize: -1})
 	plan := models.UserPlan{Name: "p", MaxCollections: 10, MaxCollectionPointCount: 1000, MaxPointSize: 1 << 20}
 	if c.Backups {
 		plan.ShardBackupFrequency, plan.ShardBackupCount = 1, 2
@@ -234,6 +250,15 @@ func execCase(c Case) (res vt.Result) {
 		cols[i] = models.Collection{UserId: "u", Id: fmt.Sprintf("col%d", i), UserPlan: plan, IndexSchema: models.IndexSchema{"n": {Type: models.IndexTypeInteger}}}
 		for j := 0; j < c.Shards; j++ {
 			cols[i].ShardIds = append(cols[i].ShardIds, fmt.Sprintf("shard-%d-%d", i, j))
+		}
+	}
+	if c.StrayBackup {
+		for _, col := range cols {
+			for _, sh := range col.ShardIds {
+				d := filepath.Join(root, cluster.USERCOLSDIR, col.UserId, col.Id, sh)
+				os.MkdirAll(d, 0755)
+				os.WriteFile(filepath.Join(d, "manual-copy.backup"), []byte("kept by hand"), 0644)
+			}
 		}
 	}
 	shardOf := func(k int) (models.Collection, string) {
